@@ -116,6 +116,38 @@ def rule_H(run, prog):
                 shared = [n_ for n_ in walk_no_nested(fn.node) if isinstance(n_, ast.Assign)
                           and any(norm(t_) == "self.params" for t_ in n_.targets)
                           and isinstance(n_.value, ast.Name) and n_.value.id in params]
+                # (i') what is appended to the record is a dictionary of the object's own: every binding of the appended
+                # name in the constructor is a fresh dictionary ({} / dict(...) / a copy / a comprehension); a binding to a
+                # parameter, to an element of one or to a loop variable over one stores the caller's dictionary
+                fparams = set(params)
+                loopvars = set()
+                for lp in [x for x in walk_no_nested(fn.node) if isinstance(x, ast.For) and isinstance(x.target, ast.Name)]:
+                    loopvars.add(lp.target.id)
+                for ap in [c_ for c_ in walk_no_nested(fn.node) if isinstance(c_, ast.Call) and norm(c_.func) == "self.params.append"
+                           and c_.args]:
+                    a0 = ap.args[0]
+                    fresh_ok = True
+                    why = ""
+                    if isinstance(a0, ast.Name):
+                        binds = [b_ for b_ in walk_no_nested(fn.node) if isinstance(b_, ast.Assign)
+                                 and any(isinstance(t_, ast.Name) and t_.id == a0.id for t_ in b_.targets)]
+                        for b_ in binds:
+                            v_ = b_.value
+                            is_fresh = isinstance(v_, (ast.Dict, ast.DictComp)) or (
+                                isinstance(v_, ast.Call) and (call_name(v_) in ("dict", "deepcopy") or (
+                                    isinstance(v_.func, ast.Attribute) and v_.func.attr == "copy")))
+                            if not is_fresh:
+                                fresh_ok = False
+                                why = norm(b_)[:50]
+                        if not binds:
+                            fresh_ok = a0.id not in fparams and a0.id not in loopvars
+                            why = "the name is a parameter or a loop variable"
+                    n += 1
+                    run.obligation(rid, "%s.__init__" % cname, fresh_ok, key="own-dictionaries:" + norm(ap)[:40],
+                                   message="the constructor records %s, which on some path is not a dictionary of its own (%s): the "
+                                           "object keeps the caller's dictionary, and a later change of it changes the recorded "
+                                           "component - the function rebuilt from the record (+, copy, += of itself, the Fourier "
+                                           "parts) is then another function" % (norm(a0), why), loc=fn.loc(ap))
                 n += 1
                 run.obligation(rid, "%s.__init__" % cname, not shared, key="own-container",
                                message="the constructor keeps the caller's parameter list itself (%s): the new object and "
